@@ -1,5 +1,5 @@
 (* C09 — filling variables is pure substitution and composes. *)
-From Secs Require Import Ast FloatProofs Fill Msg Api WireSpec WireLemmas WireValues WireEnc WireDec MsgProofs AstProofs FillProofs FillCompose.
+From Secs Require Import Ast FloatProofs Fill Msg Api WireSpec WireLemmas WireValues WireEnc WireDec MsgProofs AstProofs FillProofs FillCompose FillTrees.
 Open Scope Z_scope.
 
 (* value items: FillVariables gives what the factory gives on the argument
@@ -46,6 +46,46 @@ Theorem C09_compose_leaf : forall k w xs s1 s2 ys,
 Proof. exact fill_leaf_composes. Qed.
 Print Assumptions C09_compose_leaf.
 
-(* C09_compose_partial: for list templates the composition law and the order
-   of the remaining variables are decided by the Go-side composition monitor of
-   suite C09 and by the correspondence with the model. *)
+(* composition, whole item trees (FillVariables itself: split of the map,
+   ellipsis analysis, every node kind, any nesting and size): filling in two
+   steps equals filling once with the union of the maps, refusals included,
+   when the first map's values bring no variables of their own — a list
+   variable receives a closed item, an element of a value item receives a value
+   and not a name, an ASCII variable receives anything — and no key of either
+   map names an ellipsis *)
+Theorem C09_compose : forall s1 s2 t t',
+  no_ellipsis_keys s1 -> no_ellipsis_keys s2 -> composable s1 t ->
+  fill s1 t = Some t' -> fill s2 t' = fill (s1 ++ s2) t.
+Proof. exact fill_composes. Qed.
+Print Assumptions C09_compose.
+
+(* items without variables are closed (what `composable` asks of a value for a list variable) *)
+Theorem C09_ground_closed : forall t, ground t -> closed t.
+Proof. exact ground_closed. Qed.
+Print Assumptions C09_ground_closed.
+
+(* the hypothesis is necessary: a value that brings a variable of its own is
+   filled by the second step but not by the single one *)
+Theorem C09_compose_needs_plain_values :
+  let t := IList [IVar (B"a"%string)] in
+  let s1 := [(B"a"%string, GItem (ILeaf KUint 1 [SX (B"b"%string)]))] in
+  let s2 := [(B"b"%string, GInt Kint 5)] in
+  exists t', fill s1 t = Some t' /\ fill s2 t' <> fill (s1 ++ s2) t.
+Proof. exact two_steps_differ. Qed.
+
+(* the hypotheses of C09_compose hold of a nested template, and both routes give the tree written out *)
+Example C09_compose_premises :
+  let t := IList [IVar (B"a"%string); ILeaf KUint 1 [SV 1; SX (B"x"%string)];
+                  IList [IVar (B"b"%string); IAsciiVar (B"s"%string) 0 (-1)]] in
+  let s1 := [(B"a"%string, GItem (IList [IAscii (B"hi"%string)])); (B"x"%string, GInt Kint 7)] in
+  let s2 := [(B"b"%string, GItem (ILeaf KBool 1 [SV 1])); (B"s"%string, GStr (B"ok"%string))] in
+  no_ellipsis_keys s1 /\ no_ellipsis_keys s2 /\ composable s1 t /\
+  exists t', fill s1 t = Some t' /\ fill s2 t' = fill (s1 ++ s2) t /\
+             fill s2 t' = Some (IList [IList [IAscii (B"hi"%string)]; ILeaf KUint 1 [SV 1; SV 7];
+                                       IList [ILeaf KBool 1 [SV 1]; IAscii (B"ok"%string)]]).
+Proof. exact compose_tree_example. Qed.
+
+(* C09_compose_remaining: composition when a map expands an ellipsis (the
+   expansion renames variables, so the second map's keys would have to follow
+   the renaming) is decided by the Go-side composition monitor of suite C09 and
+   by the correspondence with the model. *)
